@@ -117,7 +117,9 @@ PROPS["C05"] = _pprop("ScpiVerif.Props.C05", [{"name": "p05", "cfgs": ["A"], "ke
 PROPS["C04"] = _pprop("ScpiVerif.Props.C04", [{"name": "p04", "cfgs": ["A"], "keep": "P,H,I,L,B,C,N"}, {"name": "p05", "cfgs": ["A"], "keep": "P,H,I,L,B,C,N"}], ["C04."],
     "decimal literals of every shape (1..25 digits, sign, point, exponent, white space before the exponent and after its E), #H/#Q/#B literals up to the type width, integer width boundaries, through the six numeric readers and SCPI_ParamNumber; every row of the unit table in four casings and three separations; every special mnemonic in short and long form and three casings; judged bit-exactly against Spec/Float.lean (correctly rounded value of the literal) and the generated unit table",
     ["translate/extract.py — scpi_units_def with multipliers as exact rationals, scpi_special_numbers_def"])
-PROPS["C17"] = _pprop("ScpiVerif.Props.C17", [{"name": "p17", "cfgs": ["A"], "keep": "P,H,W,F,E"}, {"name": "p06", "cfgs": ["A"], "keep": "P,H,W,F,E"}], ["C17."],
+PROPS["C17"] = _pprop("ScpiVerif.Props.C17", [{"name": "p17", "cfgs": ["A"], "keep": "P,H,W,F,E",
+                                                # 'the block counts as one result item once it is complete': on the block domain the separators around it are C17's business too
+                                                "clauses": ["C06.item_separator", "C06.unit_separator", "C06.terminator"]}, {"name": "p06", "cfgs": ["A"], "keep": "P,H,W,F,E"}], ["C17."],
     "one query whose script emits 1..3 blocks / binary arrays / integers: whole blocks of 0..300 random bytes, arrays of every element size (1, 2, 4, 8) in both byte orders with 0..37 elements, streamed header + data calls (exact, short, over-length chunk, zero-length chunks), header-only calls for every power of ten up to 10^8; judged by an independent streaming encoder (bytes, completed items, refused chunks)")
 PROPS["C18"] = {"module": "ScpiVerif.Props.C18", "domains": [{"name": "errstr", "cfgs": ["A", "B", "C"]}], "clauses": ["C18."], "level": "proof",
     "trusted_base": [KERNEL, TRANSLATOR + " — LIST_OF_ERRORS descriptions, fallback text, 255-character limit", CORR, PLATFORM],
